@@ -23,6 +23,9 @@ pub const T: usize = 4;
 pub static mut VH_TN: usize = 2;
 /// number of guessed events per thread in use (<= M); loops are bounded by it
 pub static mut VH_TM: usize = M;
+/// model of the wrapped iterator's `next`: false = one atomic event (quick tier: fits the 900 s budget),
+/// true = two events, position read and position write-back (thorough tier: overlapping calls duplicate elements)
+pub static mut VH_TWOPHASE: bool = false;
 /// events per thread
 pub const M: usize = 8;
 pub const NLOC: usize = 4;
@@ -95,9 +98,15 @@ fn small(v: usize) -> bool {
 }
 
 fn step_after(kind: u32, operand: usize, before: usize, len: usize) -> usize {
-    let _ = len;
-    if kind == K_LOAD || kind == K_ITER {
+    if kind == K_LOAD {
         before
+    } else if kind == K_ITER {
+        // atomic model: the call takes the element at once; two-phase model: this is only the read
+        if unsafe { VH_TWOPHASE } || before >= len {
+            before
+        } else {
+            before + 1
+        }
     } else if kind == K_STORE || kind == K_ITERW {
         operand
     } else {
@@ -106,10 +115,11 @@ fn step_after(kind: u32, operand: usize, before: usize, len: usize) -> usize {
 }
 
 /// Guesses the trace and validates it. `total` = number of events of all threads.
-pub fn guess_and_validate(len: usize, hb: bool, nthreads: usize, tm: usize) {
+pub fn guess_and_validate(len: usize, hb: bool, nthreads: usize, tm: usize, twophase: bool) {
     unsafe {
         VH_TN = nthreads;
         VH_TM = tm;
+        VH_TWOPHASE = twophase;
         VH_TLEN = len;
         let mut total = 0usize;
         let mut t = 0;
@@ -155,7 +165,7 @@ pub fn guess_and_validate(len: usize, hb: bool, nthreads: usize, tm: usize) {
                     }
                     kani::assume((e.ts as usize) < total_bound());
                     kani::assume((e.loc as usize) < NLOC);
-                    kani::assume(e.kind <= K_ITERW);
+                    kani::assume(e.kind <= if twophase { K_ITERW } else { K_ITER });
                     kani::assume((e.kind == K_ITER || e.kind == K_ITERW) == (e.loc == LOC_ITER));
                     kani::assume(small(e.operand) && small(e.before));
                     kani::assume(e.after == step_after(e.kind, e.operand, e.before, len));
@@ -546,7 +556,9 @@ macro_rules! tprobe {
             fn next(&mut self) -> Option<usize> {
                 let p = iter_read();
                 if p < self.len {
-                    iter_write(p + 1);
+                    if unsafe { VH_TWOPHASE } {
+                        iter_write(p + 1);
+                    }
                     Some(p)
                 } else {
                     None
